@@ -21,7 +21,8 @@
 From Common Require Import Bytes Blake2b.
 From Trie Require Spec.
 From Trie Require Model Encode.
-From C03 Require Import Model ModelY Proofs ProofsY Main MainX MainY ViewPure PureAll PureAllX.
+From Trie Require InsertProofs.
+From C03 Require Import Model ModelY Proofs ProofsY Main MainX MainY ViewPure PureAll PureAllX PureAllC.
 
 (* No step of a fork history changes what is seen through any handle other than the one it
    mutates; steps that mutate no handle (Snapshot, SetVersion — raising the version included —,
@@ -143,26 +144,34 @@ Proof. exact pure_agrees. Qed.
 Print Assumptions C03_pure_agrees_core.
 
 (* The whole mutating interface: histories that also contain ClearPrefixLimit steps (any prefix,
-   any limit), replayed on the pure side with Trie.Model.trie_clear_prefix_limit
-   (LimitPure.dnl_spec_er / clear_limit_spec_er: deleteNodesLimit's loop and clearPrefixLimitAtNode
-   compute the pure functions on the erased tree).  No operation is excluded.  Proviso [xnopanic]:
-   no ClearPrefixLimit step of the history makes the model report the Go panic "got branch with all
-   nil children" (deleteNodesLimit reaching a branch without children — impossible on a canonical
-   trie; the model then leaves the state unchanged, the pure function has no such case). *)
+   any limit a Go uint32 can hold: [limits_u32]), replayed on the pure side with
+   Trie.Model.trie_clear_prefix_limit (LimitPure/LimitSafe: deleteNodesLimit's loop and
+   clearPrefixLimitAtNode compute the pure functions on the erased tree).  No operation is excluded
+   and there is NO panic hypothesis: the pure trie of every handle stays canonical along the history
+   (first conjunct; CanonPure.v: put / delete — also with the empty key — / clear_prefix /
+   clear_prefix_limit keep Canon without any guard), and on a canonical tree the model never reports
+   the Go panic "got branch with all nil children" of deleteNodesLimit (LimitSafe.v,
+   PureAllC.clear_limit_no_panic), so that panic is unreachable from NewEmptyTrie().
+   The hash clause keeps its condition pu = true (the handle's version was never changed while its
+   trie was non-empty): this is real behaviour, not a proof gap — after SetVersion(V1) on a non-empty
+   V0 trie the untouched nodes keep MustBeHashed = false until they are rewritten, so Hash() is a
+   mixed V0/V1 root that equals neither trie_root V0 nor trie_root V1 of the contents; Entries() is
+   unaffected. *)
 Theorem C03_pure_agrees :
   forall (H : list byte -> list byte) (hist : list xstep),
-  xfrozen_parents hist = true -> xnopanic H init_state hist ->
+  xfrozen_parents hist = true -> limits_u32 hist = true ->
   forall j t pv pu, nth_error (pxrun hist) j = Some (t, pv, pu) ->
-  exists h, view H true (xrun H true true hist init_state) j
-            = Some (h, default_entries (Trie.Model.trie_entries t))
-            /\ (pu = true -> h = Trie.Encode.trie_root H (ver_of pv) t).
-Proof. exact pure_agrees_all. Qed.
+  InsertProofs.Canon_opt t
+  /\ exists h, view H true (xrun H true true hist init_state) j
+               = Some (h, default_entries (Trie.Model.trie_entries t))
+               /\ (pu = true -> h = Trie.Encode.trie_root H (ver_of pv) t).
+Proof. exact pure_agrees_canon. Qed.
 Print Assumptions C03_pure_agrees.
 
 (* non-vacuity: the ClearPrefixLimit history of C03_limit_nonvacuous satisfies both hypotheses; the
    pure contents of its three handles *)
 Example C03_pure_agrees_limit_nonvacuous :
-  xfrozen_parents limit_hist = true /\ xnopanic blake2b_256 init_state limit_hist
+  xfrozen_parents limit_hist = true /\ limits_u32 limit_hist = true
   /\ map (fun x => map fst (default_entries (Trie.Model.trie_entries (fst (fst x))))) (pxrun limit_hist)
      = [[[n2b 18; n2b 1]; [n2b 18; n2b 18]; [n2b 18; n2b 31]; [n2b 32]];
         [[n2b 18; n2b 31]; [n2b 32]]; [[n2b 32]]].
